@@ -114,13 +114,15 @@ class Ref:
 
 # the wrapped location d2 (on d0): a mount nested inside another one, and one whose name merely starts like them
 MOUNTS = {"/m": "/a", "/m/b": "/e/x", "/mm": "/b"}
+# chained wrapping (d2 on d1 on d0): the mounts of d1
+MOUNTS1 = {"/a": "/h/a", "/e/x": "/h/x"}
 
 
-def spec_inner(path: str):
+def spec_inner(path: str, mounts=None):
     """where a path of the wrapped location lives on the wrapped one: the LONGEST mount point that is a component-wise prefix"""
     ps = parts(path)
     best = None
-    for mnt, target in MOUNTS.items():
+    for mnt, target in (MOUNTS if mounts is None else mounts).items():
         ms = parts(mnt)
         if ps[: len(ms)] == ms and (best is None or len(ms) > len(parts(best[0]))):
             best = (mnt, target)
@@ -155,9 +157,27 @@ def gen_history(rng: random.Random, nloc: int, depth: int, nops: int, wrapped: b
                     rloc.append(2)
                     nreg += 1
                     continue
+                if wrapped == "chain":
+                    # d2 wraps d1 wraps d0: one call registers up to three ends, each related to the outermost one
+                    host0 = spec_inner(host, MOUNTS1)
+                    ops.append(("wregc", 2, outer, 1, host, host0))
+                    inner.add(nreg + 1)
+                    rloc += [2, 1]
+                    nreg += 2
+                    if host0 is not None:
+                        inner.add(nreg)
+                        rloc.append(0)
+                        nreg += 1
+                    continue
                 ops.append(("wreg", 2, outer, 0, host))
                 inner.add(nreg + 1)
                 rloc += [2, 0]
+                nreg += 2
+                continue
+            if l == 1 and wrapped == "chain" and spec_inner(p, MOUNTS1) is not None:
+                ops.append(("wreg", 1, p, 0, spec_inner(p, MOUNTS1)))       # d1 itself wraps d0
+                inner.add(nreg + 1)
+                rloc += [1, 0]
                 nreg += 2
                 continue
             comps = p.strip("/").split("/")
@@ -181,7 +201,7 @@ def gen_history(rng: random.Random, nloc: int, depth: int, nops: int, wrapped: b
             elif x < 0.38:
                 p = "/zz/y"
             elif wrapped and x < 0.6:
-                p = rng.choice(["/m", "/m/b", "/mm", "/e/x", "/e", "/a", "/a/b", "/b"]) + rng.choice(["", "", p])
+                p = rng.choice(["/m", "/m/b", "/mm", "/e/x", "/e", "/a", "/a/b", "/b", "/h", "/h/x", "/h/a"]) + rng.choice(["", "", p])
             ops.append(("inv", rng.randrange(nloc), p))
     return ops
 
@@ -272,6 +292,9 @@ CORPUS = [
     [("reg", 1, "/b/e/a"), ("reg", 0, "/b"), ("reg", 1, "/b/e/a/f"), ("rel", 1, 0), ("inv", 1, "/")],
     # wrapped location d2 (mount /m -> /a on d0): one call registers both ends
     [("reg", 1, "/x"), ("wreg", 2, "/m/c/f", 0, "/a/c/f"), ("inv", 0, "/a/c/f"), ("wreg", 2, "/m/c/f", 0, "/a/c/f"), ("inv", 2, "/m")],
+    # chained wrapping: d2:/m/b/f -> d1:/e/x/f -> d0:/h/x/f, all related to the outermost; d2:/mm/f stops on d1 (/b/f is below no mount)
+    [("wregc", 2, "/m/b/f", 1, "/e/x/f", "/h/x/f"), ("wregc", 2, "/mm/f", 1, "/b/f", None), ("inv", 0, "/h/x"), ("wreg", 1, "/a/f", 0, "/h/a/f"),
+     ("inv", 1, "/e"), ("wregc", 2, "/m/b/f", 1, "/e/x/f", "/h/x/f")],
     # nested mounts: /m/b/f/g lives below /e/x (mount /m/b), not below /a/b (mount /m); invalidating the host side reaches it
     [("wreg", 2, "/m/b/f/g", 0, "/e/x/f/g"), ("wreg", 2, "/m/a/f", 0, "/a/a/f"), ("wreg", 2, "/mm/a", 0, "/b/a"), ("inv", 0, "/e/x"),
      ("wreg", 2, "/m/b/f/g", 0, "/e/x/f/g"), ("inv", 0, "/a")],
@@ -335,7 +358,10 @@ class C21(Property):
     def _run(self, ctx: Ctx, ops, nloc, lines, expect, meta, bucket):
         dm = DefaultDataManager(_Context())
         locs = [ExecutionLocation(name="loc", deployment=f"d{i}", local=False) for i in range(nloc)]
-        if any(o[0] == "wreg" for o in ops):
+        if any(o[0] == "wregc" for o in ops) or any(o[0] == "wreg" and o[1] == 1 for o in ops):
+            locs[1] = ExecutionLocation(name="loc", deployment="d1", local=False, mounts=dict(MOUNTS1), wraps=locs[0])
+            locs[2] = ExecutionLocation(name="loc", deployment="d2", local=False, mounts=dict(MOUNTS), wraps=locs[1])
+        elif any(o[0] == "wreg" for o in ops):
             locs[2] = ExecutionLocation(name="loc", deployment="d2", local=False, mounts=dict(MOUNTS), wraps=locs[0])
         ref = Ref()
         regs, rregs = [], []
@@ -369,6 +395,32 @@ class C21(Property):
                 lines += [f"reg {l} {pp(p)}", f"reg {li} {pp(pi)}", f"rel {k} {k + 1}"]
                 expect += ["ok", "ok"]
                 meta += [(ops, i, "wreg"), (ops, i, "wreg")]
+                if seen_inv:
+                    nontriv = True
+            elif op[0] == "wregc":
+                _, l, p, l1, p1, p0 = op
+                self._inner(ctx, locs[l], p, lines, expect, meta, ops, i)
+                self._inner(ctx, locs[l1], p1, lines, expect, meta, ops, i)
+                regs += [dm.register_path(locs[l], p), None]           # one call: every end of the chain + the relations
+                ro, r1 = ref.register(l, p), ref.register(l1, p1)
+                ref.relate(ro, r1)
+                rregs += [ro, r1]
+                universe.update(prefixes(p))
+                universe.update(prefixes(p1))
+                k = len(regs) - 2
+                lines += [f"reg {l} {pp(p)}", f"reg {l1} {pp(p1)}", f"rel {k} {k + 1}"]
+                expect += ["ok", "ok"]
+                meta += [(ops, i, "wregc"), (ops, i, "wregc")]
+                if p0 is not None:
+                    regs.append(None)
+                    r0 = ref.register(0, p0)
+                    ref.relate(ro, r0)
+                    rregs.append(r0)
+                    universe.update(prefixes(p0))
+                    lines += [f"reg 0 {pp(p0)}", f"rel {k} {k + 2}"]
+                    expect += ["ok", "ok"]
+                    meta += [(ops, i, "wregc"), (ops, i, "wregc")]
+                res, rres = "ok", "ok"
                 if seen_inv:
                     nontriv = True
             elif op[0] == "rel":
@@ -457,7 +509,7 @@ class C21(Property):
             if hung:
                 break
             if diffs:
-                has_rel = any(o[0] in ("rel", "wreg") for o in ops[: i + 1])
+                has_rel = any(o[0] in ("rel", "wreg", "wregc") for o in ops[: i + 1])
                 stale = []
 
                 def walk(node, where, l):
@@ -501,9 +553,9 @@ class C21(Property):
             expect.append("desc=1|" + ("~" if got is None else pp(got)))
             meta.append((ops, i, f"get_inner_path({q!r})"))
             ctx.count("inner-path:" + ("none" if got is None else "some"))
-            if got != spec_inner(q):
+            if got != spec_inner(q, loc.mounts):
                 self._fail(ctx, "registry:inner-path-not-longest-mount",
-                           f"get_inner_path({q!r}) with mounts {dict(loc.mounts)} = {got!r}, the longest matching mount gives {spec_inner(q)!r}",
+                           f"get_inner_path({q!r}) with mounts {dict(loc.mounts)} = {got!r}, the longest matching mount gives {spec_inner(q, loc.mounts)!r}",
                            {"ops": ops[: i + 1], "nloc": 3})
 
     def _flight(self, ctx: Ctx, h, seed, lines, expect, meta, bucket):
@@ -658,7 +710,7 @@ class C21(Property):
         for ops in CORPUS:
             if self._hangs >= 3:
                 break
-            self._run(ctx, ops, 3 if any(o[0] == "wreg" for o in ops) else 2, lines, expect, meta, "corpus")
+            self._run(ctx, ops, 3 if any(o[0] in ("wreg", "wregc") for o in ops) else 2, lines, expect, meta, "corpus")
             ctx.corpus_replayed += 1
         n = 400 if ctx.tier == "quick" else 5000
         if ctx.mode == "search":
@@ -671,8 +723,10 @@ class C21(Property):
                 break
             nloc = rng.randint(1, 3)
             wrapped = nloc == 3 and rng.random() < 0.5
+            if wrapped and rng.random() < 0.4:
+                wrapped = "chain"
             self._run(ctx, gen_history(rng, nloc, rng.randint(1, 4), rng.randint(3, 14), wrapped), nloc, lines, expect, meta,
-                      "random:wrapped" if wrapped else "random")
+                      "random:wrapped-chain" if wrapped == "chain" else "random:wrapped" if wrapped else "random")
         got = ctx.lean(DRIVER, lines)
         seen = set()
         for gl, e, m in zip(got, expect, meta):
